@@ -20,7 +20,7 @@ import z3
 from . import extract
 from .sym import (SInt, SBool, Unsupported, ConcretizeError, fresh_int, fresh_bool, fresh_name,
                   s_and, s_or, s_not, s_ite, s_min, s_max, s_implies, zb, _z, mk_bool, is_sym,
-                  range_constraints, same_value, _counter, reset_atoms)
+                  range_constraints, same_value, _counter, reset_atoms, QForall)
 from .values import (CUR, VBytearray, VBytes, SSeq, SIter, SBits, SRepeat, Obj, TupObj,
                      CountedList)
 
@@ -240,6 +240,8 @@ class Interp:
         self.prefix = []
         self.modified_globals = []
         self.stats = dict(solver_checks=0, solver_s=0.0)
+        self.qassumptions = []
+        self.index_terms = []
 
     # ------------------------------------------------------------------ solver / path
     def _new_solver(self):
@@ -251,7 +253,18 @@ class Interp:
         self.pc.append(e)
         self.solver.add(e)
 
+    def add_index_term(self, t):
+        """register an index term: every assumed QForall is instantiated at it"""
+        self.index_terms.append(t)
+        for q in self.qassumptions:
+            self.assume(q.body(t))
+
     def assume(self, cond, quiet=False):
+        if isinstance(cond, QForall):
+            self.qassumptions.append(cond)
+            for t in self.index_terms:
+                self.assume(cond.body(t))
+            return
         if isinstance(cond, bool):
             if not cond:
                 raise Infeasible()
@@ -264,6 +277,14 @@ class Interp:
         v = fresh_int(prefix, lo, hi)
         for c in range_constraints(v):
             self.add_pc(c)
+        return v
+
+    def abbrev(self, x, name='t'):
+        """fresh symbol constrained to equal x (keeps later terms small)"""
+        if not isinstance(x, SInt):
+            return x
+        v = fresh_int(name, x.lo, x.hi)
+        self.add_pc(v.e == x.e)
         return v
 
     def cached_term(self, key, build):
@@ -380,6 +401,11 @@ class Interp:
 
     # ------------------------------------------------------------------ obligations
     def oblige(self, name, cond, kind='post', note=''):
+        if isinstance(cond, QForall):
+            sk = self.fresh_int('sk_' + cond.name)
+            self.inputs.setdefault('skolem_' + cond.name, sk)
+            self.add_index_term(sk)
+            return self.oblige(name, cond.body(sk), kind, note)
         name = self.prefix_tag + name
         rec = self.records.get(name)
         if rec is None:
@@ -420,6 +446,29 @@ class Interp:
             rec.undecided += 1
             self._fail(name, kind, 'undecided', None, note + ' (path feasibility unknown)')
         raise PathEnd()
+
+    def probe(self, fid, cond):
+        """known-finding probe: is `cond` (the unmodified ISO clause on the finding's
+        region) valid here?  Not an obligation; 'refuted' means the defect is still present."""
+        name = 'kf-probe:' + fid
+        rec = self.records.get(name)
+        if rec is None:
+            rec = self.records[name] = ObRecord(name, 'probe')
+        rec.instances += 1
+        if cond is True:
+            rec.discharged += 1
+            return
+        if cond is False:
+            rec.refuted += 1
+            return
+        r, model, dt = self._check(z3.Not(zb(cond)), self.timeout_ms)
+        rec.seconds += dt
+        if r == z3.unsat:
+            rec.discharged += 1
+        elif r == z3.sat:
+            rec.refuted += 1
+        else:
+            rec.undecided += 1
 
     def _fail(self, name, kind, status, model, note):
         rp = getattr(self, 'replay_spec', None)
@@ -488,6 +537,8 @@ class Interp:
             self.pc = []
             self.solver = self._new_solver()
             self.inputs = {}
+            self.qassumptions = []
+            self.index_terms = []
             _counter[0] = 0
             reset_atoms()
             CUR[0] = self
@@ -1019,8 +1070,7 @@ class Interp:
         ctx0 = LoopCtx(self, fr, 0, entry, itv)
         for nme, c in spec.inv(ctx0):
             self.oblige('%s.%s.inv-establish.%s' % (fname, tag, nme), c, kind='inv-establish')
-        k = fresh_int('k_' + tag, 0, None)
-        self.assume(k >= 0)
+        k = self.fresh_int('k_' + tag, 0, None)
         self.assume(k <= N)
         self._havoc_locals(s.body, fr, spec, extra=extract.assigned_names([ast.Assign(targets=[s.target], value=None)]) if False else ())
         # loop target is rebound at each iteration
@@ -1028,7 +1078,7 @@ class Interp:
         if spec.havoc:
             spec.havoc(ctx)
         for nme, c in spec.inv(ctx):
-            self.assume(c if is_sym(c) else bool(c))
+            self.assume(c if (is_sym(c) or isinstance(c, QForall)) else bool(c))
         if self.decide(k < N):
             self.assign(s.target, elem(k), fr)
             sig = self.exec_block(s.body, fr)
@@ -1053,13 +1103,12 @@ class Interp:
         for nme, c in spec.inv(ctx0):
             self.oblige('%s.%s.inv-establish.%s' % (fname, tag, nme), c, kind='inv-establish')
         self._havoc_locals(s.body, fr, spec)
-        k = fresh_int('k_' + tag, 0, None)
-        self.assume(k >= 0)
+        k = self.fresh_int('k_' + tag, 0, None)
         ctx = LoopCtx(self, fr, k, entry, None)
         if spec.havoc:
             spec.havoc(ctx)
         for nme, c in spec.inv(ctx):
-            self.assume(c if is_sym(c) else bool(c))
+            self.assume(c if (is_sym(c) or isinstance(c, QForall)) else bool(c))
         if self.truth(self.eval(s.test, fr)):
             v0 = spec.variant(ctx) if spec.variant else None
             sig = self.exec_block(s.body, fr)
